@@ -1,0 +1,31 @@
+//go:build verif
+// +build verif
+
+package core
+
+import "com.tuntun.rangers/node/src/middleware/types"
+
+// Verification hooks for the group chain's fork-switch path (build tag "verif" only).
+
+// VerifGroupChainRollbackTo rolls the group chain back to commonAncestor exactly as the group
+// fork switch does (groupChainFork.triggerOnChain -> removeFromCommonAncestor).
+func VerifGroupChainRollbackTo(commonAncestor *types.Group) {
+	groupChainImpl.removeFromCommonAncestor(commonAncestor)
+}
+
+// VerifGroupForkSwitch drives the group half of a fork switch in the order syncProcessor does:
+// a fresh fork at the common ancestor (startSync), the peer's groups received one by one
+// (groupResponseMsgHandler -> rcv), verification on the fork (triggerOnFork), the switch itself
+// (tryTriggerOnChain -> triggerOnChain: roll back to the ancestor, add the fork's groups) and the
+// clean-up (finishCurrentSync -> destroy). It returns triggerOnFork's error and triggerOnChain's
+// result.
+func VerifGroupForkSwitch(commonAncestor *types.Group, branch []*types.Group) (forkErr error, onChain bool) {
+	fork := newGroupChainFork(commonAncestor)
+	defer fork.destroy()
+	for i, g := range branch {
+		fork.rcv(g, i == len(branch)-1)
+	}
+	forkErr, _ = fork.triggerOnFork(nil)
+	onChain = fork.triggerOnChain(groupChainImpl)
+	return
+}
